@@ -2003,7 +2003,7 @@ def body_renames(data) -> Outcome:
     return out
 
 
-def campaigns(tier):
+def _base_campaigns(tier):
     progs = st.one_of(
         dag_programs(max_funcs=5, consistent_ignored_defaults=True, shuffle_names=True),
         dag_programs(max_funcs=5, min_funcs=2, allow_bound=False, consistent_ignored_defaults=True, shuffle_names=True),
@@ -2060,3 +2060,12 @@ def _pred_nest_with_bound(case, failure) -> bool:
 PREDICATES = {
     "nest_over_bound_parameters": _pred_nest_with_bound,
     "nested_default_lost_after_rename": _pred_nested_default_lost,}
+
+
+def campaigns(tier):
+    camps = list(_base_campaigns(tier))
+    if tier == "thorough":  # coverage-guided search over the same structured cases (fuzz/hyp_fuzz.py)
+        from vlib.core import cov_fuzz_campaign
+
+        camps.append(cov_fuzz_campaign(PID, [('renames', 30000), ('dag', 12000)]))
+    return camps
